@@ -360,6 +360,8 @@ impl<Octs: Octets> Parameter<Octs> {
             warn!("Optional Parameter in BGP OPEN other than Capability: {}",
                 typ
             );
+            // Jump over the value of this parameter.
+            parser.advance(len)?;
         }
         Ok(())
     }
